@@ -118,7 +118,7 @@ theorem setEvLink_count {s : St} (h : CountInv s) (src : Nat) (ev : Ev) (he : s.
 
 theorem count_step {s : St} (h : CountInv s) (op : Op) : CountInv (step s op).1 := by
   cases op with
-  | new m =>
+  | new m p =>
     simp only [step]
     refine ⟨h.hook, ?_⟩
     intro e ev he
@@ -127,7 +127,7 @@ theorem count_step {s : St} (h : CountInv s) (op : Op) : CountInv (step s op).1 
     · rw [List.getElem?_append_right (by omega)] at he
       have h0 : e - s.evs.length = 0 := by have := getElem?_lt' he; simp at this; omega
       rw [h0] at he; simp at he; subst he; simp [minLim]
-  | hook e m b =>
+  | hook e m b p =>
     simp only [step]
     split
     · exact append_count h _ (by simp [minLim]) _
